@@ -644,15 +644,14 @@ Definition table_solve : list (string * (list arg -> out)) :=
        (* a third argument divides every entry of the matrix (decimal entries) *)
        | [AA s1 e1; AA s2 e2; AZ sc] => solve_out s1 s2 (qscale sc (qmat_of s1 e1)) (qmat_of s2 e2)
        | _ => OBad end)
+  (* det with its entry checks; a stack [.., n, n] answers with the determinant of every n x n block, in order *)
   ; ("det", fun args => match args with
-       | [AA s1 e1] => oq [det (qmat_of s1 e1)] | _ => OBad end)
-  (* det of a stack [.., n, n]: the determinant of every n x n block of the flat data, in order *)
+       | [AA s1 e1] => match det_checked (nats s1) (map QArith_base.inject_Z e1) with
+                       | Ok l => oq l | Err e => OErr e | Panic => OPanic | Fuel => OFuel end
+       | _ => OBad end)
   ; ("detstack", fun args => match args with
-       | [AA s1 e1] =>
-         let sh := nats s1 in
-         let n := last sh 0 in
-         let blocks := prod sh / (n * n) in
-         oq (map (fun b => det (qmat_of [Z.of_nat n; Z.of_nat n] (firstn (n * n) (skipn (b * (n * n)) e1)))) (seq 0 blocks))
+       | [AA s1 e1] => match det_checked (nats s1) (map QArith_base.inject_Z e1) with
+                       | Ok l => oq l | Err e => OErr e | Panic => OPanic | Fuel => OFuel end
        | _ => OBad end)
   ].
 
